@@ -7548,14 +7548,40 @@ static char *jdf_dump_context_assignment(string_arena_t *sa_open,
             }
 
             if( vl->expr->op == JDF_RANGE ) {
-                /* This is a place where we consider iterators must be from low to high */
-                string_arena_add_string(sa_open,
-                                        "%s%s  if( (%s_%s >= (%s))",
-                                        prefix, indent(nbopen), targetf->fname, nl->name,
-                                        dump_expr((void**)vl->expr->jdf_ta1, &dest_info));
-                string_arena_add_string(sa_open, " && (%s_%s <= (%s)) ) {\n",
-                                        targetf->fname, nl->name,
-                                        dump_expr((void**)vl->expr->jdf_ta2, &dest_info));
+                /* The target execution space can be increasing or decreasing: check that the
+                 * value lies between its bounds according to the sign of the increment. */
+                if( JDF_OP_IS_CST(vl->expr->jdf_ta3->op) ) {
+                    const char *op1 = (vl->expr->jdf_ta3->jdf_cst >= 0) ? ">=" : "<=";
+                    const char *op2 = (vl->expr->jdf_ta3->jdf_cst >= 0) ? "<=" : ">=";
+                    string_arena_add_string(sa_open,
+                                            "%s%s  if( (%s_%s %s (%s))",
+                                            prefix, indent(nbopen), targetf->fname, nl->name, op1,
+                                            dump_expr((void**)vl->expr->jdf_ta1, &dest_info));
+                    string_arena_add_string(sa_open, " && (%s_%s %s (%s)) ) {\n",
+                                            targetf->fname, nl->name, op2,
+                                            dump_expr((void**)vl->expr->jdf_ta2, &dest_info));
+                } else {
+                    string_arena_add_string(sa_open,
+                                            "%s%s  if( (((%s) >= 0)",
+                                            prefix, indent(nbopen),
+                                            dump_expr((void**)vl->expr->jdf_ta3, &dest_info));
+                    string_arena_add_string(sa_open, " && (%s_%s >= (%s))",
+                                            targetf->fname, nl->name,
+                                            dump_expr((void**)vl->expr->jdf_ta1, &dest_info));
+                    string_arena_add_string(sa_open, " && (%s_%s <= (%s))) ||\n",
+                                            targetf->fname, nl->name,
+                                            dump_expr((void**)vl->expr->jdf_ta2, &dest_info));
+                    string_arena_add_string(sa_open,
+                                            "%s%s      (((%s) < 0)",
+                                            prefix, indent(nbopen),
+                                            dump_expr((void**)vl->expr->jdf_ta3, &dest_info));
+                    string_arena_add_string(sa_open, " && (%s_%s <= (%s))",
+                                            targetf->fname, nl->name,
+                                            dump_expr((void**)vl->expr->jdf_ta1, &dest_info));
+                    string_arena_add_string(sa_open, " && (%s_%s >= (%s))) ) {\n",
+                                            targetf->fname, nl->name,
+                                            dump_expr((void**)vl->expr->jdf_ta2, &dest_info));
+                }
                 nbopen++;
             } else if( NULL != vl->expr->local_variables ) {
                 string_arena_add_string(sa_open, "%s%s  /* We cannot check if %s_%s is within the iterator space, because that space is defined with local indices. We need to trust */\n",
